@@ -180,13 +180,22 @@ func vReap(dir string, sh vShape) error {
 	return err
 }
 
+// vCrashMode says where the process may die. By default the reap dies at every crash point, between
+// calls and inside the calls that are not atomic (every partial state), and the repairs die between
+// calls and inside db.CheckpointRemove.
+type vCrashMode struct {
+	reapAtomic   bool // the reap, too, dies between calls and inside db.CheckpointRemove only
+	repairInside bool // the repairs, too, die inside the calls that are not atomic
+	thin         bool // after a death of the reap inside a call that is not atomic the repair is not interrupted
+}
+
 // vCrashScenario builds the store of the shape, lets the reap die at a chosen crash point (or
 // not at all) and then up to `repairs` start-up repairs die at chosen crash points as well. It
 // returns the store directory and the view before the reap; crashes counts the deaths.
-func vCrashScenario(sh vShape, repairs int, insideInRepair bool) (root, dir string, pre vView, crashes int) {
+func vCrashScenario(sh vShape, repairs int, mode vCrashMode) (root, dir string, pre vView, crashes int) {
 	root = vNewRoot("r")
 	vPlanMissing = false
-	vCr.atomicOnly = false
+	vCr.atomicOnly = mode.reapAtomic
 	defer func() { vCr.atomicOnly = false }()
 	dir = vBuildStore(root, sh)
 	pre = vObserve(dir)
@@ -219,7 +228,10 @@ func vCrashScenario(sh vShape, repairs int, insideInRepair bool) (root, dir stri
 			verifReach("died-after-first-mutation")
 		}
 	}
-	vCr.atomicOnly = !insideInRepair
+	vCr.atomicOnly = !mode.repairInside
+	if mode.thin && len(vPartialLog) > 0 {
+		repairs = 0
+	}
 	for i := 0; i < repairs; i++ {
 		n2 := vCountPoints(func() { vBareStore(dir).check() })
 		if i == 0 && verifSymbolic() {
@@ -243,22 +255,24 @@ func vCrashScenario(sh vShape, repairs int, insideInRepair bool) (root, dir stri
 // VerifC07Crash: for every shape, a crash at every crash point of the reap (between calls, and
 // inside the calls that are not atomic with every partial state), followed by a crash of the
 // start-up repair (or none) at every crash point between calls and inside db.CheckpointRemove.
+// Thorough tier (larger shapes): the repair is only interrupted after a death of the reap between
+// calls or inside db.CheckpointRemove (the rest is VerifC07CrashTwiceInside, on the quick shapes).
 func VerifC07Crash() {
 	verifPanicsAreViolations()
-	vCrashAndRecover(vChooseShape(verifTier()), false)
+	vCrashAndRecover(vChooseShape(verifTier()), vCrashMode{thin: verifTier() > 0})
 }
 
 // VerifC07CrashTwiceInside (thorough): the shapes of the quick tier, with the crash of the repair
 // at every crash point inside the calls that are not atomic as well (so: both crashes inside).
 func VerifC07CrashTwiceInside() {
 	verifPanicsAreViolations()
-	vCrashAndRecover(vChooseShape(0), true)
+	vCrashAndRecover(vChooseShape(0), vCrashMode{repairInside: true})
 }
 
-func vCrashAndRecover(sh vShape, insideInRepair bool) {
-	root, dir, pre, _ := vCrashScenario(sh, 1, insideInRepair)
+func vCrashAndRecover(sh vShape, mode vCrashMode) {
+	root, dir, pre, _ := vCrashScenario(sh, 1, mode)
 	defer vDropRoot(root)
-	if insideInRepair && len(vPartialLog) == 2 {
+	if len(vPartialLog) == 2 {
 		verifReach("both-crashes-inside-a-call")
 	}
 
@@ -281,14 +295,14 @@ func vCrashAndRecover(sh vShape, insideInRepair bool) {
 }
 
 // VerifC07Chain (thorough): three deaths in a row - in the reap, in the repair, in the repair of
-// the repair.
+// the repair - each between calls or inside db.CheckpointRemove.
 func VerifC07Chain() {
 	verifPanicsAreViolations()
 	sh := vShape{walsPerInc: 1}
 	sh.older = verifChoice("older", 2)
 	sh.fullWALs = verifChoice("fullWALs", 2)
 	sh.incs = 1 + verifChoice("incs", 2)
-	root, dir, pre, crashes := vCrashScenario(sh, 2, false)
+	root, dir, pre, crashes := vCrashScenario(sh, 2, vCrashMode{reapAtomic: true})
 	defer vDropRoot(root)
 	verifAssume(crashes == 3)
 	err := vBareStore(dir).check()
@@ -301,7 +315,7 @@ func VerifC07Chain() {
 // half-way leaves a store that does not look like before.
 func VerifC07Twin() {
 	sh := vShape{walsPerInc: 1, older: 1, fullWALs: 1, incs: 1}
-	root, dir, pre, crashes := vCrashScenario(sh, 0, false)
+	root, dir, pre, crashes := vCrashScenario(sh, 0, vCrashMode{})
 	defer vDropRoot(root)
 	verifAssume(crashes == 1)
 	vCheckRecovered(dir, pre, "twin")
